@@ -212,10 +212,30 @@ func closerFields(p *core.Prog, f *ssa.Function) []string {
 	if f == nil || len(f.Params) == 0 {
 		return nil
 	}
+	var rets []*ssa.BasicBlock
+	for _, b := range f.Blocks {
+		if _, ok := b.Instrs[len(b.Instrs)-1].(*ssa.Return); ok && b.Comment != "recover" {
+			rets = append(rets, b)
+		}
+	}
 	for _, b := range f.Blocks {
 		for _, in := range b.Instrs {
 			ci, ok := in.(ssa.CallInstruction)
 			if !ok {
+				continue
+			}
+			// the field is closed whatever happens: the close sits on every path to every return (or is deferred at entry);
+			// a close that an earlier failure can skip does not count
+			always := true
+			for _, r := range rets {
+				if !b.Dominates(r) {
+					always = false
+				}
+			}
+			if _, isDefer := in.(*ssa.Defer); isDefer && b == f.Blocks[0] {
+				always = true
+			}
+			if !always {
 				continue
 			}
 			for _, recv := range closeTargets(ci) {
